@@ -23,7 +23,7 @@ ASSUMPTIONS = [
     'is_*/set_* accessors, clocks, atomically) are ASSUMED contracts of valjean/cosette/env.py, exercised by the bounded unit env_conformance and '
     'by the structural lock obligations; they are not proved from the Env source',
     'A-task-readonly: Task.do does not write the environment it is handed and returns or raises; A-update: the update it returns does not '
-    "contain 'status' / 'start_clock' / 'end_clock' keys of any task",
+    "contain 'status' / 'start_clock' / 'end_clock' keys of any task and does not replace the entry of ANOTHER task by a non-dictionary",
     'A-unique-names: distinct tasks of a scheduled graph have distinct names (check_unique_task_names, C15)',
     'A-toposort: DepGraph.topological_sort returns every node once, dependencies first, or raises DepGraphError (real body: bounded part of C16); '
     'Scheduler.__init__ hands over hard_graph <= full_graph over the same nodes',
@@ -167,7 +167,19 @@ def unit_decide(tier, pid, which):
 
 def unit_enqueue(tier, pid):
     w = _world()
-    res = verify_function(w, sw.c_enqueue(), setup=sw.enqueue_setup)
+
+    def setup(I, scope):
+        sw.enqueue_setup(I, scope)
+        I.atomic_depth = 0
+        orig = I.apply_contract
+
+        def apply_contract(c, args, kwargs, recv=None, node=None):
+            if c.qual.endswith('decide_new_state'):
+                I.path.oblige(f'{QF}::QueueScheduling._enqueue::structure::C02-decision-runs-under-env.atomically', I.atomic_depth >= 1, kind='structure',
+                              meta={'expr': 'decide_new_state (read-decide-write of the task state) is called through env.atomically'})
+            return orig(c, args, kwargs, recv=recv, node=node)
+        I.apply_contract = apply_contract
+    res = verify_function(w, sw.c_enqueue(), setup=setup)
     return {'functions': [prop.discharge(res, tier, pid, lambda m, r: {'note': 'see model text'}, replay_native([SWEEP_SMALL, PARK]))]}
 
 
@@ -222,6 +234,15 @@ def unit_master(tier, pid):
     w = sk.make_master_world()
     res = verify_function(w, sk.master_contract(), setup=sk.master_setup, extra_check=sk.master_check)
     return {'functions': [prop.discharge(res, tier, pid, lambda m, r: {'note': 'see model text'}, replay_native([('cyclic', {}), SWEEP_SMALL]))]}
+
+
+def unit_schedule(tier, pid):
+    out = []
+    for given in (True, False):
+        w = sk.make_schedule_world()
+        res = verify_function(w, sk.schedule_contract(given), setup=sk.schedule_setup, extra_check=sk.schedule_check)
+        out.append(prop.discharge(res, tier, pid, lambda m, r: {'note': 'see model text'}, replay_native([RERUN_SMALL, SWEEP_SMALL])))
+    return {'functions': out}
 
 
 def unit_og(tier, pid, which='all'):
